@@ -494,6 +494,64 @@ fn kb_value_cases() -> Vec<(String, Fmt)> {
     out
 }
 
+/// Argument combinations of the public API: signing algorithm strings x key kinds for issuer and holder,
+/// every Some/None combination of the key-binding arguments, serialization format given vs format of the input.
+fn api_combo_count() -> usize {
+    ALGS_STR.len() * 3 * 2
+}
+const ALGS_STR: [Option<&str>; 14] = [None, Some("ES256"), Some("ES384"), Some("HS256"), Some("HS512"), Some("EdDSA"), Some("RS256"), Some("PS256"), Some("XX"), Some(""), Some("none"), Some("es256"), Some(" ES256"), Some("ES256\u{0}")];
+fn run_api_combo(i: usize, l: &mut Local) {
+    use jsonwebtoken::EncodingKey;
+    let alg = ALGS_STR[i % ALGS_STR.len()];
+    let key_kind = (i / ALGS_STR.len()) % 3;
+    let fmt = if (i / (ALGS_STR.len() * 3)) % 2 == 0 { Fmt::Compact } else { Fmt::Json };
+    let key = |k: usize| -> EncodingKey {
+        match k {
+            0 => keys::issuer_enc(Alg::ES256, 0),
+            1 => keys::issuer_enc(Alg::EdDSA, 0),
+            _ => keys::issuer_enc(Alg::HS256, 0),
+        }
+    };
+    let u = json!({"iss": gen::ISS, "exp": gen::EXP, "a": 1, "b": [1, {"c": 2}]});
+    let case = || json!({"kind": "c07_api", "index": i});
+    l.evals += 1;
+    // issuer
+    let mut issuer = drive::new_issuer(key(key_kind), alg);
+    let out = drive::issue(&mut issuer, &u, &Strat::All, Hk::Es.jwk(0), true, fmt);
+    note(l, &out.clone().map(|_| ()), "issue_sd_jwt", "api", &case);
+    // a good SD-JWT for the holder side
+    let mut good_issuer = drive::new_issuer(keys::issuer_enc(Alg::HS256, 0), Some("HS256"));
+    let Out::Ok(sd) = drive::issue(&mut good_issuer, &u, &Strat::All, Hk::Es.jwk(0), false, fmt) else { return };
+    // format given vs format of the input
+    for f2 in codec::FMTS {
+        match drive::holder_new(&sd, f2) {
+            Out::Ok(mut h) => {
+                // every Some/None combination of (nonce, aud, key) x this algorithm string x this key kind
+                for mask in 0..8u8 {
+                    let kb = KbArgs {
+                        nonce: if mask & 1 != 0 { Some("n".into()) } else { None },
+                        aud: if mask & 2 != 0 { Some("a".into()) } else { None },
+                        key: if mask & 4 != 0 { Some(if key_kind == 0 { Hk::Es.enc(0).unwrap() } else { key(key_kind) }) } else { None },
+                        alg: alg.map(str::to_string),
+                    };
+                    let o = drive::present(&mut h, &gen::select_all(&u), &kb);
+                    note(l, &o.clone().map(|_| ()), "create_presentation", "api", &case);
+                    if let Out::Ok(p) = o {
+                        for f3 in codec::FMTS {
+                            for (aud, nonce) in [(None, None), (Some("a"), Some("n")), (Some("a"), None), (None, Some("n"))] {
+                                let v = drive::verify(&p, keys::issuer_dec(Alg::HS256, 0), aud, nonce, f3).map(|_| ());
+                                note(l, &v, "verifier_new", "api", &case);
+                            }
+                        }
+                    }
+                }
+            }
+            o => note(l, &o.map(|_| ()), "holder_new", "api", &case),
+        }
+    }
+    l.nontrivial += 1;
+}
+
 struct Groups {
     alpha: Vec<String>,
     max_len: usize,
@@ -574,6 +632,12 @@ pub fn worker(args: &[String]) {
                 }
                 run_one(&g, name, i, &mut l);
             }
+        }
+    }
+    for i in 0..api_combo_count() {
+        if i % n == shard {
+            worker::announce(&format!("api {i}"));
+            run_one(&g, "api", i, &mut l);
         }
     }
     let nsel = g.sel_creds.len() * g.sels.len();
@@ -668,6 +732,7 @@ fn run_one(g: &Groups, group: &str, i: usize, l: &mut Local) {
             run_signed(&c, "c08", l);
             l.nontrivial += 1;
         }
+        "api" => run_api_combo(i, l),
         "kb_values" => {
             let (text, fmt) = &g.kb_values[i];
             op_string(text, *fmt, "kb_values", l);
@@ -742,6 +807,7 @@ pub fn run(rep: &Report) {
         "deep_inputs": g.deep.len(),
         "garbage_disclosures_in_valid_token": g.garbage_disc.len(),
         "validly_signed_kb_jwts_with_every_value_shape_per_claim": g.kb_values.len(),
+        "api_argument_combinations(alg string x key kind x format; x 8 kb-argument masks x format given)": api_combo_count(),
         "auxiliary_random_strings(sampling)": g.random}, "worker_processes": n}));
     rep.sample(json!({"group": "compact_seq", "input": nth_sequence(&g.alpha, 4, 12345)}));
     rep.sample(json!({"group": "select", "selection": g.sels[g.sels.len() / 2]}));
@@ -762,6 +828,7 @@ pub fn replay(case: &Value) -> Vec<Violation> {
             let hk = if case["hk"] == "ES256" { Hk::Es } else { Hk::None };
             op_issue(&case["claims"], &Strat::from_json(&case["strategy"]), case["decoys"].as_bool().unwrap_or(false), hk, fmt, &group, &mut l)
         }
+        ("c07_api", _) => run_api_combo(case["index"].as_u64().unwrap_or(0) as usize, &mut l),
         ("c07_block", _) => {
             // re-run the block in a subprocess, case by case, and report the ones that kill it
             let exe = std::env::current_exe().unwrap();
